@@ -11,6 +11,7 @@ RULE = ('cases = EAM and Finnis-Sinclair models over every ordered subset of 1..
         'element pairs (orientation patterns, listing orders) x [FS: density-entry subsets] x grids (nr, nrho incl. 2,3,4,5,7,8 so the '
         'last record holds 1..4 values, and a (cutoff, n) lattice sweep) x route {class, writeTABEAM*, Configuration.read, potable}; '
         'every case executed; non-trivial = >= 2 elements or >= 1 declared pair')
+RULE += '; label / foreign-pair models as C03 (incl. Fe2 / Fe10), title= strings starting with block keywords, assigned-after-construction and numpy-returning functions, lazily computed density mappings, density dictionaries with extra species, (cutoff, n) sweep'
 ASSUMPTIONS = [
     'TABEAM layout as DL_POLY reads it (mc/readers/eam.py): title, count, blocks pair/embe/dens with header "kind species n x0 x1" and exactly n values, 4 per record',
     'values printed with %f: tolerance 1 unit of the 6th decimal + 1e-9 relative',
